@@ -151,6 +151,10 @@ fn search(args: &HiArgs, mode: SearchMode) -> anyhow::Result<bool> {
         let wtr = searcher.printer().get_mut();
         let _ = print_stats(mode, stats, started_at, wtr);
     }
+    // Write out whatever is still buffered, so that a failure to do so (a
+    // full device, say) is reported instead of being lost when the writer is
+    // dropped. A broken pipe is taken care of by `main`.
+    searcher.printer().get_mut().flush()?;
     Ok(matched)
 }
 
@@ -262,7 +266,8 @@ fn files(args: &HiArgs) -> anyhow::Result<bool> {
     let haystacks = args.sort(unsorted);
 
     let mut matched = false;
-    let mut path_printer = args.path_printer_builder().build(args.stdout());
+    let mut stdout = args.stdout();
+    let mut path_printer = args.path_printer_builder().build(&mut stdout);
     for haystack in haystacks {
         matched = true;
         if args.quit_after_match() {
@@ -275,6 +280,9 @@ fn files(args: &HiArgs) -> anyhow::Result<bool> {
             return Err(err.into());
         }
     }
+    // As in `search`: report a failure to write out the rest.
+    drop(path_printer);
+    stdout.flush()?;
     Ok(matched)
 }
 
@@ -296,7 +304,8 @@ fn files_parallel(args: &HiArgs) -> anyhow::Result<bool> {
     };
 
     let haystack_builder = args.haystack_builder();
-    let mut path_printer = args.path_printer_builder().build(args.stdout());
+    let mut stdout = args.stdout();
+    let path_printer_builder = args.path_printer_builder();
     let matched = AtomicBool::new(false);
     let (tx, rx) = mpsc::channel::<crate::haystack::Haystack>();
 
@@ -305,10 +314,13 @@ fn files_parallel(args: &HiArgs) -> anyhow::Result<bool> {
     // than using a mutex in the worker threads below, but this has never been
     // seriously litigated.
     let print_thread = thread::spawn(move || -> std::io::Result<()> {
+        let mut path_printer = path_printer_builder.build(&mut stdout);
         for haystack in rx.iter() {
             path_printer.write(haystack.path())?;
         }
-        Ok(())
+        // As in `search`: report a failure to write out the rest.
+        drop(path_printer);
+        stdout.flush()
     });
     args.walk_builder()?.build_parallel().run(|| {
         let haystack_builder = &haystack_builder;
@@ -360,6 +372,7 @@ fn types(args: &HiArgs) -> anyhow::Result<ExitCode> {
         }
         stdout.write_all(b"\n")?;
     }
+    stdout.flush()?;
     Ok(ExitCode::from(if count == 0 { 1 } else { 0 }))
 }
 
